@@ -657,8 +657,11 @@ int verif_execvp(const char *file, char *const argv[])
            gc.want_prepend ? (file != NULL && file == g.prep_ptr && g.prep_src == gc.want_argv0)
                           : (file != NULL && file == g.dup_ptr && g.dup_src == gc.want_argv0));
   V_ASSERT("C03/exec.argv_is_callers", argv == gc.want_argv);
+  /* the environment is the vector strv_concat built from the parent's entries
+     (when extending) and the extra entries, in that order */
   V_ASSERT("C03/exec.environment_is_parent_then_extra",
-           environ != NULL && environ == g.env_ptr && g.env_a == gc.want_env_a && g.env_b == gc.want_env_b);
+           environ != NULL && environ == g.env_ptr && g.env_a == gc.want_env_a &&
+               g.env_b == gc.want_env_b);
   V_ASSERT("C03/exec.working_directory", g.cwd_id == gc.want_cwd_id);
 
   int e = maybe_fault();
